@@ -279,8 +279,8 @@ def nearLines (p : Pt) (ls : List (List Pt)) (tol : Rat) : Bool :=
   nearSegs p (ls.flatMap segs) tol || ls.any (fun l => match l with | [c] => dist2 p c ≤ tol * tol | _ => false)
 
 /-- clip clauses: pieces lie on the subject; samples of the subject strictly inside are in `resin`
-only, strictly outside in `resout` only, near the polygon boundary in at least one; total length
-conserved. Returns the name of the first failed clause, or "". -/
+only, strictly outside in `resout` only, on the polygon boundary in `resin` (the polygon is closed;
+a transversal crossing is in both); total length conserved. Returns the name of the first failed clause, or "". -/
 def clipClause (poly : List Poly) (ls resin resout : List (List Pt)) (tol : Rat) : String :=
   let bnd := (poly.flatMap Poly.rings).flatMap segs
   let lsegs := ls.flatMap segs
@@ -292,7 +292,9 @@ def clipClause (poly : List Poly) (ls resin resout : List (List Pt)) (tol : Rat)
         let q := lerp a b t
         let nin := nearLines q resin tol
         let nout := nearLines q resout tol
-        if nearSegs q bnd (2 * tol) then (if nin || nout then none else some "clip-boundary-part-lost")
+        if nearSegs q bnd (2 * tol) then
+          -- the polygon is a closed set: a part on its boundary is a part inside it
+          (if nin then none else if nout then some "clip-boundary-part-only-in-inverted" else some "clip-boundary-part-lost")
         else if insideSpec poly q then
           (if !nin then some "clip-inside-part-missing" else if nout then some "clip-inside-part-in-inverted" else none)
         else
